@@ -53,11 +53,13 @@ func (m *storageManager) getRaw(key string) []byte {
 
 // set data to storage or memory
 func (m *storageManager) setRaw(key string, raw []byte, exp time.Duration) {
+	// the key is crucial in crsf and sometimes a reference to another value which can be reused later(pool/unsafe values concept), so a copy is made here
+	// (also for a Storage: an in-process driver keeps the key it is given)
+	key = utils.CopyString(key)
 	if m.storage != nil {
 		_ = m.storage.Set(key, raw, exp) //nolint:errcheck // TODO: Do not ignore error
 	} else {
-		// the key is crucial in crsf and sometimes a reference to another value which can be reused later(pool/unsafe values concept), so a copy is made here
-		m.memory.Set(utils.CopyString(key), raw, exp)
+		m.memory.Set(key, raw, exp)
 	}
 }
 
